@@ -142,6 +142,8 @@ pub struct Program {
     pub ops: Vec<Op>,
     pub names: Vec<String>,
     pub entropy: Entropy,
+    /// explicit full content per file (overrides the generator), used for adversarial contents
+    pub custom: Option<Vec<Vec<u8>>>,
 }
 
 pub fn default_names(n: usize) -> Vec<String> {
@@ -158,7 +160,7 @@ impl Program {
             })
             .max()
             .unwrap_or(0);
-        Program { ops, names: default_names(n), entropy }
+        Program { ops, names: default_names(n), entropy, custom: None }
     }
     pub fn short(&self) -> String {
         self.ops.iter().map(|o| o.short()).collect::<Vec<_>>().join(" ")
@@ -176,7 +178,11 @@ impl Program {
                 }
             })
             .collect();
-        json!({"ops": self.ops.iter().map(|o| o.json()).collect::<Vec<_>>(), "names": names, "entropy": self.entropy.tag()})
+        let mut j = json!({"ops": self.ops.iter().map(|o| o.json()).collect::<Vec<_>>(), "names": names, "entropy": self.entropy.tag()});
+        if let Some(c) = &self.custom {
+            j["custom_hex"] = json!(c.iter().map(hex::encode).collect::<Vec<_>>());
+        }
+        j
     }
     pub fn from_json(v: &serde_json::Value) -> Program {
         let ops = v["ops"].as_array().map(|a| a.iter().map(Op::from_json).collect()).unwrap_or_default();
@@ -196,7 +202,16 @@ impl Program {
                     .collect()
             })
             .unwrap_or_default();
-        Program { ops, names, entropy: Entropy::from_tag(v["entropy"].as_str().unwrap_or("pattern")) }
+        let custom = v["custom_hex"].as_array().map(|a| a.iter().map(|h| hex::decode(h.as_str().unwrap_or("")).unwrap_or_default()).collect());
+        Program { ops, names, entropy: Entropy::from_tag(v["entropy"].as_str().unwrap_or("pattern")), custom }
+    }
+
+    /// content bytes [start, start+len) of file i
+    pub fn bytes(&self, i: usize, start: u64, len: usize) -> Vec<u8> {
+        match &self.custom {
+            Some(c) => c[i][start as usize..start as usize + len].to_vec(),
+            None => content::fill(i, start, len, self.entropy),
+        }
     }
 
     /// Close the program: end all still-open files (creation order, or reverse), no finalize op
@@ -232,12 +247,12 @@ impl Program {
                 }
                 Op::Append(i, s) => {
                     let l = lens.get_mut(&i).expect("append to unstarted file in program");
-                    let data = content::fill(i, *l, s, self.entropy);
+                    let data = self.bytes(i, *l, s);
                     *l += s as u64;
                     files.get_mut(&self.names[i]).unwrap().extend_from_slice(&data);
                 }
                 Op::Add(i, s) => {
-                    files.insert(self.names[i].clone(), content::fill(i, 0, s, self.entropy));
+                    files.insert(self.names[i].clone(), self.bytes(i, 0, s));
                     lens.insert(i, s as u64);
                 }
                 Op::End(_) | Op::Flush => {}
@@ -336,7 +351,10 @@ pub fn run_program_on<W: Write>(
             }
             Op::Append(i, s) => {
                 let l = *lens.get(&i).ok_or("append before start")?;
-                let src = content::GenReader { file: i, pos: l, end: l + s as u64, e: p.entropy };
+                let src: Box<dyn Read> = match &p.custom {
+                    Some(_) => Box::new(Cursor::new(p.bytes(i, l, s))),
+                    None => Box::new(content::GenReader { file: i, pos: l, end: l + s as u64, e: p.entropy }),
+                };
                 w.append_file_content(ids[&i], s as u64, src).map_err(|e| format!("op {k} {}: {e:?}", o.short()))?;
                 lens.insert(i, l + s as u64);
             }
@@ -344,7 +362,10 @@ pub fn run_program_on<W: Write>(
                 w.end_file(ids[&i]).map_err(|e| format!("op {k} {}: {e:?}", o.short()))?;
             }
             Op::Add(i, s) => {
-                let src = content::GenReader { file: i, pos: 0, end: s as u64, e: p.entropy };
+                let src: Box<dyn Read> = match &p.custom {
+                    Some(_) => Box::new(Cursor::new(p.bytes(i, 0, s))),
+                    None => Box::new(content::GenReader { file: i, pos: 0, end: s as u64, e: p.entropy }),
+                };
                 w.add_file(&p.names[i], s as u64, src).map_err(|e| format!("op {k} {}: {e:?}", o.short()))?;
             }
             Op::Flush => {
